@@ -5,6 +5,7 @@ CONSTANTS
   EpochFmt = FALSE
   KeepLB = FALSE
   BestTrain = FALSE
+  ModelKind = "plain"
   Params <- FsP0
   MaxE = 4
   MaxCrash = 1
